@@ -581,8 +581,24 @@ impl<'a> Gen<'a> {
                     self.push(n.clone(), "arith");
                     if self.rng.chance(1, 4) {
                         // the same expression again
-                        let n2 = g.add_node(vec![a, b], vec![], n.get_operation())?;
+                        let n2 = g.add_node(vec![a.clone(), b.clone()], vec![], n.get_operation())?;
                         self.push(n2, "duplicate");
+                    }
+                    if self.rng.chance(1, 4) {
+                        // the same operation with the operands swapped: a different value unless the
+                        // operation is commutative
+                        let n2 = g.add_node(vec![b.clone(), a.clone()], vec![], n.get_operation())?;
+                        self.push(n2, "swapped-operands");
+                    }
+                    if matches!(&t, Type::Array(s, _) if s.len() == 2 && s[0] == s[1]) && self.rng.chance(1, 2) {
+                        // matrix products of square matrices in both orders (not commutative)
+                        let (p, q) = match self.rng.below(3) {
+                            0 => (a.dot(b.clone())?, b.dot(a.clone())?),
+                            1 => (a.matmul(b.clone())?, b.matmul(a.clone())?),
+                            _ => (a.gemm(b.clone(), false, true)?, b.gemm(a.clone(), false, true)?),
+                        };
+                        self.push(p, "matrix-product");
+                        self.push(q, "matrix-product-swapped");
                     }
                 }
             }
